@@ -6,6 +6,7 @@
      texts = one (c1 c2 …) per node: str(cell.formula) of a formula cell
      tol   = () for tolerance=None | (num den)
      outs  = (n1 n2 …) the checked outputs, in the order given to validate_calcs
+         close_enough (tol self value)   ->  (1 b)   [_CellBase.close_enough]
    answer: ((left…) (verified…) ((n original calced)…) snapshot)
      left = what remains on the stack (non-empty = out of fuel), the report in
      dictionary order, snapshot = (built? value) per node after the run.
@@ -162,8 +163,19 @@ Definition validate_entry (args : list sx) : sx :=
   | _ => bad_args
   end.
 
+Definition close_entry (args : list sx) : sx :=
+  match args with
+  | [tol; a; b] =>
+      match dec_tol tol, dec_val a, dec_val b with
+      | Some t, Some a, Some b => enc_val (VBool (close_enough t a b))
+      | _, _, _ => bad_args
+      end
+  | _ => bad_args
+  end.
+
 Definition table : list entry :=
-  [ E "history" history_entry; E "spec" spec_entry; E "validate" validate_entry ].
+  [ E "history" history_entry; E "spec" spec_entry; E "validate" validate_entry;
+    E "close_enough" close_entry ].
 
 Definition dispatch (name : list Z) (args : list sx) : sx :=
   match lookup table name with
